@@ -9,11 +9,11 @@ import (
 
 const scheduled = false
 
-func rtGo(f func())     { go f() }
-func rtYield()          { runtime.Gosched() }
-func rtSetFine(on bool) {}
+func rtGo(f func())      { go f() }
+func rtYield()           { runtime.Gosched() }
+func rtSetFine(on bool)  {}
 func rtSetDelay(on bool) {}
-func rtSpawn(f func())  { go f() }
+func rtSpawn(f func())   { go f() }
 
 type rtJoiner = sync.WaitGroup
 
